@@ -350,12 +350,15 @@ def main(argv):
     pid = argv[0]
     tier = os.environ.get("VERIF_TIER", "quick")
     replay = None
+    proofs_only = False
     i = 1
     while i < len(argv):
         if argv[i] == "--tier":
             tier = argv[i + 1]; i += 2
         elif argv[i] == "--replay":
             replay = argv[i + 1]; i += 2
+        elif argv[i] == "--proofs-only":
+            proofs_only = True; i += 1   # development aid: stages 1-3 only (facts, lake build, audit)
         else:
             print("unknown argument", argv[i]); return 2
     if tier not in ("quick", "thorough"):
@@ -431,6 +434,10 @@ def main(argv):
         log.append("leanchecker rc=%d" % rcc)
         if rcc != 0:
             broken.append({"what": "leanchecker " + module, "detail": outc[-1500:]})
+
+    if proofs_only:
+        print(("PROOFS-BROKEN %s %s" % (pid, json.dumps(broken)[:1500])) if broken else ("PROOFS-OK %s theorems=%d" % (pid, len(theorems or []))))
+        return 1 if broken else 0
 
     # 3. correspondence + oracle on the implementation
     rc_h, out_h = build_harness(log)
